@@ -107,3 +107,54 @@ package jsonapi
 //@ assert after AddRel#1 attrs-def: forall a string :: a in res.Type.Attrs ==> a in typ.Attrs && res.Type.Attrs[a] == typ.Attrs[a]
 //@ assert after Set#1 attrs-def: forall a string :: a in res.Type.Attrs ==> a in typ.Attrs && res.Type.Attrs[a] == typ.Attrs[a]
 //@ assert after Set#2 attrs-def: forall a string :: a in res.Type.Attrs ==> a in typ.Attrs && res.Type.Attrs[a] == typ.Attrs[a]
+
+// A user-supplied constructor returns a resource (assumed of client code).
+//@ interface Type.NewFunc
+//@ modifies $rh, all
+//@ ensures nonnil: result != nil
+
+//@ func SoftResource.SetMeta
+//@ props C05
+//@ requires nonnil: sr != nil
+//@ modifies obj[SoftResource](sr)
+//@ ensures kept: sr.Type == old(sr.Type) && sr.id == old(sr.id) && sr.data == old(sr.data)
+
+// Full unmarshaling, for schemas of soft types (struct-backed types go through
+// package reflect and are outside the verified subset).
+//@ spec softSchema(s *Schema) = forall i int :: 0 <= i && i < len(s.Types) ==> s.Types[i].NewFunc == nil
+//@ spec urShape(res Resource, t string) = dyn(res) == type[*SoftResource] && asSoft(res) != nil && fresh(asSoft(res)) && asSoft(res).Type != nil && fresh(asSoft(res).Type) && asSoft(res).id == rsk_id(t)
+
+//@ func UnmarshalResource
+//@ flag devirt
+//@ flag devirt-closed
+//@ flag post-per-return
+//@ inline Type.New
+//@ props C05 C13
+//@ requires schema: schema != nil && allTypesWf(schema) && noIDField(schema) && softSchema(schema)
+//@ modifies new[SoftResource], new[Type], new[map[string]any], new[map[string]Attr], new[map[string]Rel], new[time.Time], new[uint8], new[string], new[resourceSkeleton], new[map[string][]uint8], new[map[string]relationshipSkeleton], new[Identifier], new[[]Identifier], new[any], new[int], new[int8], new[int16], new[int32], new[int64], new[uint], new[uint16], new[uint32], new[uint64], new[bool], new[[]uint8]
+//@ ensures error-xor-result: (result1 != nil) == (result0 == nil)
+//@ ensures soft: result1 == nil ==> dyn(result0) == type[*SoftResource] && asSoft(result0) != nil
+//@ ensures known-type: result1 == nil ==> hasType(schema, asSoft(result0).Type.Name)
+//@ ensures type-name: result1 == nil ==> asSoft(result0).Type.Name == rsk_type(old(text(data)))
+//@ ensures id: result1 == nil ==> asSoft(result0).id == rsk_id(old(text(data)))
+//@ ensures attrs-def: result1 == nil ==> (forall a string, i int :: isFirst(schema, i, rsk_type(old(text(data)))) ==> (a in asSoft(result0).Type.Attrs) == (a in schema.Types[i].Attrs) && (a in schema.Types[i].Attrs ==> asSoft(result0).Type.Attrs[a] == schema.Types[i].Attrs[a]))
+//@ ensures rels-def: result1 == nil ==> (forall r string, i int :: isFirst(schema, i, rsk_type(old(text(data)))) ==> (r in asSoft(result0).Type.Rels) == (r in schema.Types[i].Rels) && (r in schema.Types[i].Rels ==> asSoft(result0).Type.Rels[r] == schema.Types[i].Rels[r]))
+//@ ensures typed: result1 == nil ==> srTyped(asSoft(result0))
+//@ ensures payload-fields-known: result1 == nil ==> (forall a string :: rsk_hasAttr(old(text(data)), a) ==> a in asSoft(result0).Type.Attrs) && (forall r string :: rsk_hasRel(old(text(data)), r) ==> r in asSoft(result0).Type.Rels)
+//@ loop 0 invariant frame: unchanged(heap[Type]) && unchanged(heap[Schema]) && unchanged(maps[map[string]Attr]) && unchanged(maps[map[string]Rel]) && unchanged(heap[string]) && unchanged(heap[uint8]) && unchanged(heap[SoftResource]) && unchanged(maps[map[string]any])
+//@ loop 0 invariant shape: urShape(res, old(text(data))) && asSoft(res).Type == &typ && typ == pre(typ) && srReady(asSoft(res)) && fresh(asSoft(res).data)
+//@ loop 0 invariant shape-wf: attrsWf(typ.Attrs) && relsWf(typ.Rels) && fieldsDisjoint(typ) && !("id" in typ.Attrs) && !("id" in typ.Rels) && typ.Name == rsk_type(old(text(data)))
+//@ loop 0 invariant typed: srTyped(asSoft(res))
+//@ loop 0 invariant data-only-fields: forall k string :: k in asSoft(res).data ==> srIsField(asSoft(res), k)
+//@ loop 0 invariant visited-known: forall a string :: visited(a) ==> a in typ.Attrs
+//@ loop 1 invariant frame: unchanged(heap[Type]) && unchanged(heap[Schema]) && unchanged(maps[map[string]Attr]) && unchanged(maps[map[string]Rel]) && unchanged(heap[string]) && unchanged(heap[uint8]) && unchanged(heap[SoftResource]) && unchanged(maps[map[string]any])
+//@ loop 1 invariant shape: urShape(res, old(text(data))) && asSoft(res).Type == &typ && typ == pre(typ) && srReady(asSoft(res)) && fresh(asSoft(res).data)
+//@ loop 1 invariant shape-wf: attrsWf(typ.Attrs) && relsWf(typ.Rels) && fieldsDisjoint(typ) && !("id" in typ.Attrs) && !("id" in typ.Rels) && typ.Name == rsk_type(old(text(data)))
+//@ loop 1 invariant typed: srTyped(asSoft(res))
+//@ loop 1 invariant data-only-fields: forall k string :: k in asSoft(res).data ==> srIsField(asSoft(res), k)
+//@ loop 1 invariant attrs-known: forall a string :: rsk_hasAttr(old(text(data)), a) ==> a in typ.Attrs
+//@ loop 1 invariant visited-known: forall r string :: visited(r) ==> r in typ.Rels
+//@ loop 2 invariant ids: fresh(ids) && len(ids) == len(idens) && unchanged(heap[string])
+//@ use SoftResource.Set: set-id keep-id checked fresh-data fresh-maps new-maps-empty typed-attrs typed-rels only-fields
+//@ use Attr.UnmarshalToType: error-xor-value typed-string typed-int typed-int8 typed-int16 typed-int32 typed-int64 typed-uint typed-uint8 typed-uint16 typed-uint32 typed-uint64 typed-bool typed-time-Time typed-slice-byte
+//@ use Schema.GetType: found missing named first
